@@ -47,6 +47,9 @@ func FillValue(seed uint64, n int) []byte {
 		return []byte{}
 	}
 	b := make([]byte, n)
+	if seed == 0 {
+		return b // all-zero value (looks like padding / pre-allocated space)
+	}
 	x := seed*0x9E3779B97F4A7C15 + 1
 	i := 0
 	for i+8 <= n {
